@@ -47,3 +47,7 @@ pub fn presolver_dims(data: &DefaultProblemData<f64>) -> Option<(usize, usize, f
 pub mod trace;
 // facts about a constructed solver used by the solve-loop model
 pub mod skel;
+// ---------------------------------------------------------------------------
+// nonsymmetric cones (C14)
+// ---------------------------------------------------------------------------
+pub mod c14;
